@@ -1215,4 +1215,408 @@ theorem init_adv (cfg : Cfg) (tsn peerRwnd : BitVec 32) : AdvInv (init cfg tsn p
   intro i c hi
   simp [init] at hi
 
+/-! ### abandonment is monotone along every run (no invariant needed) -/
+
+theorem advancePeerAck_ab (y : St) : (advancePeerAck y).abandonedMsgs = y.abandonedMsgs ∧ (advancePeerAck y).allInflightMsgs = y.allInflightMsgs ∧
+    (advancePeerAck y).inflight = y.inflight ∧ (advancePeerAck y).cumAck = y.cumAck ∧ (advancePeerAck y).established = y.established ∧
+    (advancePeerAck y).pending = y.pending ∧ (advancePeerAck y).cfg = y.cfg := by
+  obtain ⟨a, b, h⟩ := advancePeerAck_only y
+  rw [h]
+  exact ⟨rfl, rfl, rfl, rfl, rfl, rfl, rfl⟩
+
+theorem prStep_ab (x : St) : (prStep x).abandonedMsgs = x.abandonedMsgs ∧ (prStep x).allInflightMsgs = x.allInflightMsgs := by
+  unfold prStep
+  split
+  · split
+    · exact ⟨(advancePeerAck_ab _).1, (advancePeerAck_ab _).2.1⟩
+    · exact ⟨(advancePeerAck_ab _).1, (advancePeerAck_ab _).2.1⟩
+  · exact ⟨rfl, rfl⟩
+
+theorem sack_ab (s : St) (cum arwnd : BitVec 32) (gaps : List (BitVec 16 × BitVec 16)) (marks : List (BitVec 32)) :
+    (sack s cum arwnd gaps marks).1.abandonedMsgs = s.abandonedMsgs ∧ (sack s cum arwnd gaps marks).1.allInflightMsgs = s.allInflightMsgs := by
+  unfold sack
+  split
+  · exact ⟨rfl, rfl⟩
+  · split
+    · exact ⟨rfl, rfl⟩
+    · split
+      · exact ⟨rfl, rfl⟩
+      · cases ha : ackPhase s cum gaps with
+        | none => exact ⟨rfl, rfl⟩
+        | some r =>
+          simp only
+          have p1 := (ackPhase_shape ha).1
+          have c1 := fastRetransCheck_ctl (setPeerWindow r.1 arwnd) cum gaps r.2.1 r.2.2
+          split
+          · exact ⟨c1.1.trans p1.1, c1.2.1.trans p1.2.1⟩
+          · have p2 := prStep_ab (fastRetransCheck (setPeerWindow r.1 arwnd) cum gaps r.2.1 r.2.2).1
+            exact ⟨p2.1.trans (c1.1.trans p1.1), p2.2.trans (c1.2.1.trans p1.2.1)⟩
+
+theorem t3_ab (s : St) : (t3 s).abandonedMsgs = s.abandonedMsgs ∧ (t3 s).allInflightMsgs = s.allInflightMsgs := by
+  obtain ⟨x, hx, x1, x2, x3, x4, x5, x6, x7, x8, x9⟩ := t3_eq s
+  rw [hx]
+  split
+  · exact ⟨(advancePeerAck_ab x).1.trans x4, (advancePeerAck_ab x).2.1.trans x5⟩
+  · exact ⟨x4, x5⟩
+
+theorem iter_t3_ab (n : Nat) (s : St) : (iter t3 n s).abandonedMsgs = s.abandonedMsgs ∧ (iter t3 n s).allInflightMsgs = s.allInflightMsgs := by
+  induction n generalizing s with
+  | zero => exact ⟨rfl, rfl⟩
+  | succ n ih =>
+    simp only [iter]
+    exact ⟨(ih (t3 s)).1.trans (t3_ab s).1, (ih (t3 s)).2.trans (t3_ab s).2⟩
+
+theorem write_ab (s : St) (si : BitVec 16) (ppi : BitVec 32) (len : Nat) :
+    (write s si ppi len).1.abandonedMsgs = s.abandonedMsgs ∧ (write s si ppi len).1.allInflightMsgs = s.allInflightMsgs ∧
+    (write s si ppi len).1.advPeerAck = s.advPeerAck ∧ (write s si ppi len).1.cumAck = s.cumAck ∧
+    (write s si ppi len).1.willSendForwardTSN = s.willSendForwardTSN ∧ (write s si ppi len).1.established = s.established := by
+  unfold write
+  cases hst : s.streams si with
+  | none => exact ⟨rfl, rfl, rfl, rfl, rfl, rfl⟩
+  | some st =>
+    simp only
+    split
+    · exact ⟨rfl, rfl, rfl, rfl, rfl, rfl⟩
+    · split
+      · exact ⟨rfl, rfl, rfl, rfl, rfl, rfl⟩
+      · split
+        · exact ⟨rfl, rfl, rfl, rfl, rfl, rfl⟩
+        · split
+          · exact ⟨rfl, rfl, rfl, rfl, rfl, rfl⟩
+          · exact ⟨rfl, rfl, rfl, rfl, rfl, rfl⟩
+
+/-- whatever the operation, no message leaves the abandoned set and none leaves the all-fragments-in-flight set -/
+theorem step_abLe (s : St) (op : Op) : AbLe s (step s op) := by
+  cases op with
+  | openS si u rt rv th => exact AbLe.of_eq rfl rfl
+  | unreg si =>
+    simp only [step, unregister]
+    split
+    · exact AbLe.refl s
+    · exact AbLe.of_eq rfl rfl
+  | setEstablished b => exact AbLe.of_eq rfl rfl
+  | write si ppi len => exact AbLe.of_eq (write_ab s si ppi len).1 (write_ab s si ppi len).2.1
+  | gather orc sel => exact (gather_grel s orc sel).1
+  | sack cum arwnd gaps marks => exact AbLe.of_eq (sack_ab s cum arwnd gaps marks).1 (sack_ab s cum arwnd gaps marks).2
+  | t3 => exact AbLe.of_eq (t3_ab s).1 (t3_ab s).2
+  | tick ms n marks =>
+    simp only [step]
+    exact AbLe.of_eq (iter_t3_ab n _).1 (iter_t3_ab n _).2
+
+theorem run_abLe (s : St) (ops : List Op) : AbLe s (run s ops) := by
+  induction ops generalizing s with
+  | nil => exact AbLe.refl s
+  | cons op ops ih => exact (step_abLe s op).trans (ih (step s op))
+
+/-! ### what a gather does with the flag and the FORWARD-TSN -/
+
+theorem gather_flag (s : St) (orc : Oracle) (sel : List Nat) (he : s.established = true) :
+    (gather s orc sel).1.willSendForwardTSN = false := by
+  rw [(gather_eq s orc sel he).1]
+
+theorem fwdOut_isSome (x : St) : (fwdOut x).isSome = true ↔
+    (x.willSendForwardTSN = true ∧ sna32GT x.advPeerAck x.cumAck = true ∧ (x.cfg.useIForwardTSN = true ∨ x.cfg.prEnabled = true)) := by
+  unfold fwdOut
+  by_cases h1 : x.willSendForwardTSN = true <;> by_cases h2 : sna32GT x.advPeerAck x.cumAck = true <;>
+    by_cases h3 : x.cfg.useIForwardTSN = true <;> by_cases h4 : x.cfg.prEnabled = true <;> simp [h1, h2, h3, h4]
+
+/-! ### contents of FORWARD-TSN / I-FORWARD-TSN -/
+
+theorem fwdScan_congr {s s' : St} (h1 : s'.advPeerAck = s.advPeerAck) (h2 : s'.inflight = s.inflight) (fuel : Nat) (i : BitVec 32) :
+    fwdScan s' fuel i = fwdScan s fuel i := by
+  induction fuel generalizing i with
+  | zero => rfl
+  | succ fuel ih => simp only [fwdScan, h1, h2, ih]
+
+/-- the flag does not matter for what a FORWARD-TSN would contain -/
+theorem fwd_flag (x : St) (b : Bool) : fwdChunks { x with willSendForwardTSN := b } = fwdChunks x := by
+  unfold fwdChunks
+  exact fwdScan_congr (s := x) (s' := { x with willSendForwardTSN := b }) rfl rfl _ _
+
+/-- the scan of `createForwardTSN` visits exactly the first `advPeerAck − cumAck` chunks of the queue -/
+theorem fwdScan_eq (s : St) (hc : Contig s.inflight (s.cumAck + 1)) (hsm : s.inflight.length < 2^31)
+    (hle : (s.advPeerAck - s.cumAck).toNat ≤ s.inflight.length) (fuel : Nat) (i : BitVec 32)
+    (hj : (i - (s.cumAck + 1)).toNat ≤ (s.advPeerAck - s.cumAck).toNat)
+    (hf : (s.advPeerAck - s.cumAck).toNat - (i - (s.cumAck + 1)).toNat < fuel) :
+    fwdScan s fuel i = (s.inflight.drop (i - (s.cumAck + 1)).toNat).take ((s.advPeerAck - s.cumAck).toNat - (i - (s.cumAck + 1)).toNat) := by
+  induction fuel generalizing i with
+  | zero => omega
+  | succ fuel ih =>
+    simp only [fwdScan]
+    by_cases hlt : (i - (s.cumAck + 1)).toNat < (s.advPeerAck - s.cumAck).toNat
+    · have hle' : sna32LTE i s.advPeerAck = true := by
+        simp only [sna32LTE, sna32LT, Bool.or_eq_true, beq_iff_eq, Bool.and_eq_true, decide_eq_true_eq]
+        by_cases he : i = s.advPeerAck
+        · exact Or.inl he
+        · right; bv_omega
+      have hin : (i - (s.cumAck + 1)).toNat < s.inflight.length := by omega
+      rw [if_pos hle', get_of_lt hc hin]
+      simp only
+      have hnext : (i + 1 - (s.cumAck + 1)).toNat = (i - (s.cumAck + 1)).toNat + 1 := by bv_omega
+      rw [ih (i + 1) (by rw [hnext]; omega) (by rw [hnext]; omega), hnext]
+      have e : (s.advPeerAck - s.cumAck).toNat - (i - (s.cumAck + 1)).toNat =
+          ((s.advPeerAck - s.cumAck).toNat - ((i - (s.cumAck + 1)).toNat + 1)) + 1 := by omega
+      rw [e, List.drop_eq_getElem_cons hin, List.take_succ_cons]
+    · have heq : (i - (s.cumAck + 1)).toNat = (s.advPeerAck - s.cumAck).toNat := by omega
+      have hle' : sna32LTE i s.advPeerAck = false := by
+        simp only [sna32LTE, sna32LT, Bool.or_eq_false_iff, beq_eq_false_iff_ne, Bool.and_eq_false_iff, decide_eq_false_iff_not]
+        refine ⟨by intro he; subst he; bv_omega, ?_⟩
+        constructor <;> bv_omega
+      rw [hle', heq]
+      simp
+
+theorem fwdChunks_eq (s : St) (hs : Seq s) (hsm : s.inflight.length < 2^31) (h : AdvInv s) :
+    fwdChunks s = s.inflight.take (s.advPeerAck - s.cumAck).toNat := by
+  unfold fwdChunks
+  have h0 : (s.cumAck + 1 - (s.cumAck + 1)).toNat = 0 := by simp
+  rw [fwdScan_eq s hs.1 hsm h.le _ _ (by omega) (by have := h.le; omega), h0]
+  simp
+
+/-- the generic "greatest per key" fold both chunk builders run -/
+def upFold {K V : Type} [DecidableEq K] (lt : V → V → Bool) : List (K × V) → List (K × V) → List (K × V)
+  | [], m => m
+  | (k, v) :: r, m => upFold lt r (upsertMax lt m k v)
+
+def getv {K V : Type} [DecidableEq K] : List (K × V) → K → Option V
+  | [], _ => none
+  | (k', v') :: r, k => if k' = k then some v' else getv r k
+
+theorem getv_mem {K V : Type} [DecidableEq K] {m : List (K × V)} {k : K} {v : V} (h : getv m k = some v) : (k, v) ∈ m := by
+  induction m with
+  | nil => cases h
+  | cons e r ih =>
+    obtain ⟨k', v'⟩ := e
+    simp only [getv] at h
+    split at h
+    · rename_i hk; cases h; subst hk; exact List.mem_cons_self
+    · exact List.mem_cons_of_mem _ (ih h)
+
+theorem getv_upsert {K V : Type} [DecidableEq K] (lt : V → V → Bool) (m : List (K × V)) (k : K) (v : V) (k' : K) :
+    getv (upsertMax lt m k v) k' =
+      if k' = k then some (match getv m k with | none => v | some v' => if lt v' v then v else v') else getv m k' := by
+  induction m with
+  | nil =>
+    simp only [upsertMax, getv]
+    by_cases h : k' = k
+    · subst h; simp
+    · simp [h, Ne.symm h]
+  | cons e r ih =>
+    obtain ⟨k0, v0⟩ := e
+    simp only [upsertMax]
+    by_cases h0 : k0 = k
+    · subst h0
+      simp only [if_true, getv]
+      by_cases h : k' = k0
+      · subst h; simp
+      · simp [h, Ne.symm h]
+    · simp only [h0, if_false, getv]
+      by_cases h : k' = k
+      · subst h; simp only [h0, if_false, ih, if_true]
+      · by_cases h1 : k0 = k'
+        · simp [h1, h]
+        · simp [h1, h, ih]
+
+theorem upsert_mem {K V : Type} [DecidableEq K] (lt : V → V → Bool) (m : List (K × V)) (k : K) (v : V) (e : K × V)
+    (h : e ∈ upsertMax lt m k v) : e ∈ m ∨ e = (k, v) := by
+  induction m with
+  | nil => simp [upsertMax] at h; exact Or.inr h
+  | cons e0 r ih =>
+    obtain ⟨k0, v0⟩ := e0
+    simp only [upsertMax] at h
+    split at h
+    · rename_i hk
+      rcases List.mem_cons.mp h with h1 | h1
+      · split at h1
+        · right; rw [h1, hk]
+        · left; rw [h1]; exact List.mem_cons_self
+      · left; exact List.mem_cons_of_mem _ h1
+    · rcases List.mem_cons.mp h with h1 | h1
+      · left; rw [h1]; exact List.mem_cons_self
+      · rcases ih h1 with h2 | h2
+        · left; exact List.mem_cons_of_mem _ h2
+        · right; exact h2
+
+theorem upsert_keys {K V : Type} [DecidableEq K] (lt : V → V → Bool) (m : List (K × V)) (k : K) (v : V) :
+    (∀ k', k' ∈ (upsertMax lt m k v).map (·.1) ↔ k' = k ∨ k' ∈ m.map (·.1)) ∧
+    ((m.map (·.1)).Nodup → ((upsertMax lt m k v).map (·.1)).Nodup) := by
+  induction m with
+  | nil => simp [upsertMax]
+  | cons e0 r ih =>
+    obtain ⟨k0, v0⟩ := e0
+    simp only [upsertMax]
+    by_cases h0 : k0 = k
+    · subst h0
+      simp only [if_true, List.map_cons]
+      refine ⟨fun k' => by simp, fun h => h⟩
+    · simp only [h0, if_false, List.map_cons]
+      refine ⟨fun k' => by simp [ih.1 k']; exact or_left_comm, fun h => ?_⟩
+      rw [List.nodup_cons] at h ⊢
+      refine ⟨?_, ih.2 h.2⟩
+      intro hm
+      rcases (ih.1 k0).mp hm with h1 | h1
+      · exact h0 h1
+      · exact h.1 h1
+
+theorem upFold_mem {K V : Type} [DecidableEq K] (lt : V → V → Bool) (kvs m : List (K × V)) (e : K × V)
+    (h : e ∈ upFold lt kvs m) : e ∈ m ∨ e ∈ kvs := by
+  induction kvs generalizing m with
+  | nil => exact Or.inl h
+  | cons kv r ih =>
+    obtain ⟨k, v⟩ := kv
+    simp only [upFold] at h
+    rcases ih _ h with h1 | h1
+    · rcases upsert_mem lt m k v e h1 with h2 | h2
+      · exact Or.inl h2
+      · right; rw [h2]; exact List.mem_cons_self
+    · exact Or.inr (List.mem_cons_of_mem _ h1)
+
+theorem upFold_nodup {K V : Type} [DecidableEq K] (lt : V → V → Bool) (kvs m : List (K × V)) (h : (m.map (·.1)).Nodup) :
+    ((upFold lt kvs m).map (·.1)).Nodup := by
+  induction kvs generalizing m with
+  | nil => exact h
+  | cons kv r ih =>
+    obtain ⟨k, v⟩ := kv
+    exact ih _ ((upsert_keys lt m k v).2 h)
+
+/-- `a` is not above `b` -/
+def LeBy {V : Type} (lt : V → V → Bool) (a b : V) : Prop := a = b ∨ lt a b = true
+
+/-- every value seen so far is dominated by the entry kept for its key, provided `lt` is a total order on the
+values of each key (`W`) -/
+theorem upFold_max {K V : Type} [DecidableEq K] (lt : V → V → Bool) (W : K → V → Prop)
+    (htot : ∀ k a b, W k a → W k b → lt a b = false → LeBy lt b a)
+    (htr : ∀ k a b c, W k a → W k b → W k c → LeBy lt a b → lt b c = true → LeBy lt a c)
+    (kvs m seen : List (K × V)) (hW : ∀ e ∈ seen ++ kvs, W e.1 e.2) (hWm : ∀ e ∈ m, W e.1 e.2)
+    (hdom : ∀ e ∈ seen, ∃ v, getv m e.1 = some v ∧ LeBy lt e.2 v) :
+    ∀ e ∈ seen ++ kvs, ∃ v, getv (upFold lt kvs m) e.1 = some v ∧ LeBy lt e.2 v := by
+  induction kvs generalizing m seen with
+  | nil => simpa [upFold] using hdom
+  | cons kv r ih =>
+    obtain ⟨k, v⟩ := kv
+    simp only [upFold]
+    have hWkv : W k v := hW (k, v) (by simp)
+    have := ih (upsertMax lt m k v) (seen ++ [(k, v)]) (by simpa using hW)
+      (by
+        intro e he
+        rcases upsert_mem lt m k v e he with h1 | h1
+        · exact hWm e h1
+        · rw [h1]; exact hWkv)
+      (by
+        intro e he
+        rw [getv_upsert]
+        rcases List.mem_append.mp he with h1 | h1
+        · obtain ⟨v0, g1, g2⟩ := hdom e h1
+          by_cases hk : e.1 = k
+          · rw [if_pos hk]
+            rw [hk] at g1
+            rw [g1]
+            simp only
+            have hW0 : W k v0 := hWm (k, v0) (getv_mem g1)
+            have hWe : W k e.2 := by have := hW e (by simp [h1]); rw [hk] at this; exact this
+            by_cases hl : lt v0 v = true
+            · rw [if_pos hl]; exact ⟨v, rfl, htr k e.2 v0 v hWe hW0 hWkv g2 hl⟩
+            · rw [if_neg hl]; exact ⟨v0, rfl, g2⟩
+          · rw [if_neg hk]; exact ⟨v0, g1, g2⟩
+        · simp only [List.mem_singleton] at h1
+          subst h1
+          simp only [if_true]
+          cases hg : getv m k with
+          | none => exact ⟨v, rfl, Or.inl rfl⟩
+          | some v0 =>
+            simp only
+            have hW0 : W k v0 := hWm (k, v0) (getv_mem hg)
+            by_cases hl : lt v0 v = true
+            · rw [if_pos hl]; exact ⟨v, rfl, Or.inl rfl⟩
+            · rw [if_neg hl]; exact ⟨v0, rfl, htot k v0 v hW0 hWkv (by simpa using hl)⟩)
+    simpa using this
+
+theorem fwdStreams_eq (L : List Chunk) (m : List (BitVec 16 × BitVec 16)) :
+    fwdStreams L m = upFold sna16LT ((L.filter (fun c => !c.unordered)).map fun c => (c.si, c.ssn)) m := by
+  induction L generalizing m with
+  | nil => rfl
+  | cons c r ih =>
+    simp only [fwdStreams]
+    by_cases hu : c.unordered = true
+    · simp [hu, ih]
+    · have hu' : c.unordered = false := by simpa using hu
+      simp [hu', ih, upFold]
+
+theorem ifwdStreams_eq (L : List Chunk) (m : List ((BitVec 16 × Bool) × BitVec 32)) :
+    ifwdStreams L m = upFold sna32LT (L.map fun c => ((c.si, c.unordered), c.mid)) m := by
+  induction L generalizing m with
+  | nil => rfl
+  | cons c r ih => simp [ifwdStreams, ih, upFold]
+
+/-- serial order on 16-bit numbers inside a half-space window is total and transitive -/
+theorem sna16_window (base a b c : BitVec 16) (ha : (a - base).toNat < 2^15) (hb : (b - base).toNat < 2^15) (hc : (c - base).toNat < 2^15) :
+    (sna16LT a b = false → LeBy sna16LT b a) ∧ (LeBy sna16LT a b → sna16LT b c = true → LeBy sna16LT a c) := by
+  unfold LeBy
+  simp only [sna16LT, Bool.or_eq_true, Bool.and_eq_true, decide_eq_true_eq, Bool.or_eq_false_iff, Bool.and_eq_false_iff, decide_eq_false_iff_not]
+  constructor
+  · intro h
+    by_cases he : b = a
+    · exact Or.inl he
+    · right; bv_omega
+  · intro h1 h2
+    right
+    rcases h1 with h1 | h1
+    · subst h1; exact h2
+    · bv_omega
+
+theorem sna32_window (base a b c : BitVec 32) (ha : (a - base).toNat < 2^31) (hb : (b - base).toNat < 2^31) (hc : (c - base).toNat < 2^31) :
+    (sna32LT a b = false → LeBy sna32LT b a) ∧ (LeBy sna32LT a b → sna32LT b c = true → LeBy sna32LT a c) := by
+  unfold LeBy
+  simp only [sna32LT, Bool.or_eq_true, Bool.and_eq_true, decide_eq_true_eq, Bool.or_eq_false_iff, Bool.and_eq_false_iff, decide_eq_false_iff_not]
+  constructor
+  · intro h
+    by_cases he : b = a
+    · exact Or.inl he
+    · right; bv_omega
+  · intro h1 h2
+    right
+    rcases h1 with h1 | h1
+    · subst h1; exact h2
+    · bv_omega
+
+/-- **what a gather puts on the wire as FORWARD-TSN**: one goes out exactly when the flag is up and the advanced peer ack
+point is ahead of the cumulative point; it carries that point and the lists computed on the state the gather leaves -/
+theorem gather_fwd (s : St) (orc : Oracle) (sel : List Nat) (he : s.established = true) :
+    ((gather s orc sel).2.fwd.isSome = true ↔
+      (s.willSendForwardTSN = true ∧ sna32GT s.advPeerAck s.cumAck = true ∧ (s.cfg.useIForwardTSN = true ∨ s.cfg.prEnabled = true))) ∧
+    (∀ f, (gather s orc sel).2.fwd = some f →
+      f = (if s.cfg.useIForwardTSN then Fwd.ifwd s.advPeerAck (iForwardTSN (gather s orc sel).1).2
+           else Fwd.fwd s.advPeerAck (forwardTSN (gather s orc sel).1).2)) := by
+  obtain ⟨e1, e2⟩ := gather_eq s orc sel he
+  obtain ⟨_, _, g3, g4, g5, _⟩ := gatherPre_grel s orc sel
+  have hcfg : (gatherPre s orc sel).cfg = s.cfg := by
+    have := gather_cfg s orc sel
+    rw [e1] at this; exact this
+  refine ⟨?_, ?_⟩
+  · rw [e2, fwdOut_isSome, g3, g4, g5, hcfg]
+  · intro f hf
+    rw [e2] at hf
+    rw [e1]
+    have h1 : (iForwardTSN { gatherPre s orc sel with willSendForwardTSN := false }).2 = (iForwardTSN (gatherPre s orc sel)).2 := by
+      simp only [iForwardTSN, fwd_flag]
+    have h2 : (forwardTSN { gatherPre s orc sel with willSendForwardTSN := false }).2 = (forwardTSN (gatherPre s orc sel)).2 := by
+      simp only [forwardTSN, fwd_flag]
+    rw [h1, h2]
+    unfold fwdOut at hf
+    rw [hcfg] at hf
+    split at hf
+    · split at hf
+      · rename_i hi
+        rw [if_pos hi]
+        simp only [Option.some.injEq] at hf
+        rw [← hf]
+        simp only [iForwardTSN, g3]
+      · rename_i hi
+        rw [if_neg hi]
+        split at hf
+        · simp only [Option.some.injEq] at hf
+          rw [← hf]
+          simp only [forwardTSN, g3]
+        · cases hf
+    · cases hf
+
 end SenderProofs
